@@ -2,6 +2,8 @@ import argparse, importlib, os, sys, traceback
 sys.path.insert(0, os.path.dirname(os.path.abspath(__file__)))
 sys.setrecursionlimit(1000)  # CPython default, made explicit
 import common
+import logging
+logging.disable(logging.CRITICAL)
 
 
 def main():
